@@ -13,7 +13,7 @@ CONSTANTS
   AllowDecor = TRUE
   OnExcChoices = {TRUE, FALSE}
   PreForceChoices = {FALSE}
-  XfDecChoices = {TRUE, FALSE}
+  XfDecChoices = {FALSE}
   StepOps = {"upcall", "addCleanup", "addDetail", "expect", "patch", "useFixture"}
   AllowMulti = FALSE
   Variant = "asRequired"
